@@ -18,11 +18,15 @@ DOC_KEYS = ["all", "dir", "filename", "force-file-write", "formatter", "log-leve
             "require-template-schema-exists", "template", "template-schema"]
 
 # ---------------------------------------------------------------- package-path strings
-FRAGS = ["a", "b", "github.com/org/repo", "x/y", ": ", ":", " #", "#", "'", '"', "{", "}", "[", "]", ",", "- ", "-", "? ", "?", "*", "&", "!",
+ENVISH = ["$repo", "${x}", "$x", "${repo}", "$1", "$$", "$HOME", "${HOME}", "${}", "$", "${", "$}", "$nosuch", "${NOSUCH_C18}", "%VAR%", "%repo%", "$(id)", "`id`",
+          "$PATH", "${x:-d}", "${#x}", "$*", "$@", "$?", "$_", "$repo_suffix", "\\$repo", "$$repo", "~", "~root", "~/x"]
+FRAGS = ENVISH + ["a", "b", "/", "example.com/", "/api", "github.com/org/repo", "x/y", ": ", ":", " #", "#", "'", '"', "{", "}", "[", "]", ",", "- ", "-", "? ", "?", "*", "&", "!",
          "%", "@", "`", " ", "  ", "~", "null", "true", "false", "1e3", "0x10", "123", "1.5", "\t", "\n", "\r", "|", ">", "\\", "=", "<<", "<",
          "é", "✓", "日本", "😀", "\u00a0", "\u2028", "\u0085", "\ufeff", "\x7f", "\x01", "yes", "no", "on", "off", ".", "..", "/", "//", "---", "...",
          "!!str", "!!binary ", "&a ", "*a", "%YAML", ".inf", ".nan", "0o17", "1_000", "2001-01-01", "1:30", "+1", "-1", "0"]
-WHOLE = ["", " ", "~", "null", "Null", "NULL", "true", "True", "TRUE", "false", "yes", "no", "on", "off", "y", "n", "Y", "N", "1e3", "0x10", "123", "1.5",
+WHOLE = ["example.com/$repo/api", "example.com/${x}/api", "a/$1/b", "a/$$/b", "$HOME/x", "a/${}/b", "a/$", "a/%VAR%/b", "~/pkg", "~", "a/`id`/b", "a/$(id)/b",
+         "example.com/$nosuch/api", "example.com/${NOSUCH_C18}/api", "$repo", "${x}", "$", "$$", "${", "a/${x", "a/$x}/b", "$repo$x", "${repo}${x}", "x/$repo_suffix/y",
+         "", " ", "null", "Null", "NULL", "true", "True", "TRUE", "false", "yes", "no", "on", "off", "y", "n", "Y", "N", "1e3", "0x10", "123", "1.5",
          "0o17", "0b1", "1_000", "1:30", ".5", ".inf", "-.inf", ".nan", "+1", "-1", "0", "00", "2001-01-01", "2001-01-01T00:00:00Z", "=", "<<x", "x<<", "< <",
          "-", "--", "- x", "-x", "? x", "?x", "*x", "&x", "!x", "!!str", "!!binary", "%x", "@x", "`x`", "a: b", "a:", ":a", ": ", "a #b", "a# b", "#x",
          "'q'", '"dq"', "a'b", "''", "'", '"', "{a}", "[a]", "{", "}", "[", "]", ",", "a,b", "|", ">", "|-", ">-", "a|b", "a|", "---", "...", "--- x", "%YAML 1.2",
@@ -123,8 +127,14 @@ TARGETS = [  # (kind, --config value as a function of the scratch dir, path of t
 ]
 
 
-def clean_env():
-    env = {k: v for k, v in os.environ.items() if not k.startswith("MOCKERY_")}
+LOAD_VARS = {"repo": "surprise", "x": "1", "VAR": "expanded"}      # set while the written file is loaded back
+NEVER_SET = ["nosuch", "NOSUCH_C18"]                                # referenced by some package paths, never set
+
+
+def clean_env(load_vars=None):
+    env = {k: v for k, v in os.environ.items() if not k.startswith("MOCKERY_") and k not in LOAD_VARS and k not in NEVER_SET}
+    if load_vars:
+        env.update(load_vars)
     return env
 
 
@@ -175,9 +185,10 @@ def py_val(x):
     return ("str", str(x).encode() if x is not None else b"")
 
 
-def showconfig(ctx, w, flagval):
+def showconfig(ctx, w, flagval, load_vars=None):
+    """load the file back with the real loader; load_vars = extra environment of this loading step"""
     cmd = [ctx.bins["mockery"], "showconfig"] + (["--config", flagval] if flagval is not None else [])
-    p = run(cmd, cwd=w, env=clean_env(), timeout=60)
+    p = run(cmd, cwd=w, env=clean_env(load_vars), timeout=60)
     if p.returncode != 0:
         msg = (p.stdout + p.stderr).decode(errors="replace")
         m = re.search(r"Error: (.*?)(?:\nUsage:|$)", msg, re.S)
@@ -233,7 +244,10 @@ def run_case(ctx, c):
             o["pyyaml_keys"] = [keyb(k) for k in (y.get("packages") or {})]
         except Exception as e:
             o["pyyaml_ok"] = False
-        o["show"], o["show_err"] = showconfig(ctx, w, flagval)
+        # loaded with repo=surprise x=1 VAR=expanded in the environment (HOME etc. as inherited) ...
+        o["show"], o["show_err"] = showconfig(ctx, w, flagval, LOAD_VARS)
+        # ... and, for paths an environment/shell-style expander could touch, once more with those variables unset
+        o["show_unset"] = showconfig(ctx, w, flagval, None) if any(ch in c["pkg"] for ch in b"$%~`") else None
     return o
 
 
@@ -264,9 +278,16 @@ def oracle(c, o, defaults):
         return errs
     keys = [k for k, _ in o["show"]["packages"]]
     if keys != [c["pkg"]]:
-        errs.append("loads-back: package key %r loaded back as %r" % (c["pkg"], keys))
+        errs.append("loads-back: package key %r loaded back as %r (environment of the loading step: %s)" % (
+            c["pkg"], keys, " ".join("%s=%s" % kv for kv in LOAD_VARS.items())))
     elif not o["show"]["packages"][0][1]:
         errs.append("selects-all: the loaded package does not have all: true")
+    if o.get("show_unset") is not None:
+        s2, e2 = o["show_unset"]
+        k2 = None if s2 is None else [k for k, _ in s2["packages"]]
+        if k2 != [c["pkg"]] and keys == [c["pkg"]]:
+            errs.append("loads-back: with %s unset in the environment of the loading step the package key %r loaded back as %r %s" % (
+                "/".join(LOAD_VARS), c["pkg"], k2, " ".join((e2 or "").split())[:200]))
     if o["pyyaml_ok"] and o.get("pyyaml_keys") != [c["pkg"]] and keys == [c["pkg"]]:
         errs.append("loads-back: an independent YAML parser reads the package key %r as %r" % (c["pkg"], o.get("pyyaml_keys")))
     if o["written"] is not None:
@@ -391,6 +412,9 @@ CORPUS = [  # (state, target index, package path)
     ("Absent", 3, b"- leading dash"), ("IsDangling", 1, b"x"), ("IsDir", 4, b"x"), ("IsLinkToFile", 2, b"x"),
     ("NoParent", 3, b"x"), ("NoParent", 5, b"x"), ("ParentIsFile", 3, b"x"), ("Absent", 5, b"null"), ("Absent", 6, b"true"),
     ("IsDanglingIntoDir", 0, b"x"), ("IsDanglingIntoDir", 3, b"x"), ("IsDanglingIntoDir", 4, b"x"), ("IsDanglingIntoDir", 1, b"x"),
+    ("Absent", 0, b"example.com/$repo/api"), ("Absent", 1, b"example.com/${x}/api"), ("Absent", 3, b"a/$1/b"), ("Absent", 4, b"a/$$/b"),
+    ("Absent", 0, b"$HOME/x"), ("Absent", 2, b"a/${}/b"), ("Absent", 5, b"a/$"), ("Absent", 1, b"a/%VAR%/b"), ("Absent", 0, b"~"), ("Absent", 6, b"a/`id`/b"),
+    ("Absent", 1, b"example.com/$nosuch/api"), ("Absent", 0, b"${NOSUCH_C18}"), ("Absent", 3, b"$repo$x"),
     ("Absent", 1, b""), ("Absent", 1, b"<<x"), ("Absent", 1, b"\xff\xfe"), ("Absent", 1, b"a\nb"), ("Absent", 2, "日本語/✓ ".encode()),
 ]
 
@@ -412,7 +436,8 @@ def describe(c, o=None):
     if o is not None:
         d.update({"config_flag": o["flag"], "exit": o["rc"], "target_changed": o["target_changed"], "others_changed": o["others_changed"],
                   "written": (o.get("bytes") or b"").decode(errors="backslashreplace")[-400:], "showconfig_error": " ".join(o["show_err"].split())[:300],
-                  "loaded_package_keys": None if o["show"] is None else [k.decode(errors="backslashreplace") for k, _ in o["show"]["packages"]]})
+                  "loaded_package_keys": None if o["show"] is None else [k.decode(errors="backslashreplace") for k, _ in o["show"]["packages"]],
+                  "loaded_package_keys_with_variables_unset": None if not o.get("show_unset") or o["show_unset"][0] is None else [k.decode(errors="backslashreplace") for k, _ in o["show_unset"][0]["packages"]]})
     return d
 
 
@@ -523,6 +548,7 @@ def check(ctx, only=None, probe_only=False):
         except UnicodeDecodeError:
             return "invalid-utf8"
         if s == "": return "empty"
+        if "$" in s or "%" in s or "`" in s or s.startswith("~"): return "env/shell-expandable"
         if len(s) > 128: return "long"
         if any(ord(ch) < 32 or ord(ch) == 127 for ch in s): return "control-chars"
         if any(ord(ch) > 127 for ch in s): return "non-ascii"
@@ -541,7 +567,8 @@ def check(ctx, only=None, probe_only=False):
                                                                                      "confirmed_bad_rounds": len(probe["confirmed"])}, "module_runs": len(mod_results), "module_failures": len(mod_fail),
                               "model_mismatches": len(bad), "oracle_failures": len(oracle_fail),
                               "module_samples": [d for d, _ in mod_results[:3]]},
-                       assumptions=["yaml.v3 (encoder) and koanf's YAML parser are parameters of the model with a round-trip hypothesis; the correspondence compares at the level of key/value trees (PyYAML compose without merge processing) and through the real loader (`mockery showconfig`)",
+                       assumptions=["the written file is loaded back with repo=surprise x=1 VAR=expanded in the environment, and paths containing $ % ~ ` a second time with them unset; the loader model (Misc/Init.v load) is a function of the file's bytes only - no environment",
+                                    "yaml.v3 (encoder) and koanf's YAML parser are parameters of the model with a round-trip hypothesis; the correspondence compares at the level of key/value trees (PyYAML compose without merge processing) and through the real loader (`mockery showconfig`)",
                                     "write errors after the exclusive create (disk full) are not modelled",
                                     "config discovery of a plain `mockery` run (FindConfig prefers .mockery.yaml and walks up the directory tree) is outside the model: the scratch modules contain no other config file"])
 
